@@ -310,7 +310,8 @@ def deb_case(ctx, idx, rng):
     # members the loaders reject: their diagnostics must be the ones of the extracted file too
     if idx % 2 == 0:
         os.makedirs(os.path.join(tree, 'usr/share/po'), exist_ok=True)
-        broken = {'usr/share/po/broken%d.po' % idx: (pogen.render(content_catalog(rng)) + '\nmsgid "unterminated\nmsgstr ""\n').encode(),
+        broken = {'usr/share/po/broken%d.po' % idx: (pogen.render(content_catalog(rng)) + '\nmsgid "x"\nfoo bar\n').encode(),
+                  'usr/share/po/broken%dq.po' % idx: (pogen.render(content_catalog(rng)) + '\nmsgid "a"b"\nmsgstr ""\n').encode(),
                   'usr/share/po/broken%d.mo' % idx: b'\xde\x12\x04\x95\x00\x00\x00\x00\x05\x00\x00\x00junk',
                   'usr/share/po/broken%db.po' % idx: b'msgid ""\nmsgstr ""\n"Content-Type: text/plain; charset=UTF-8\\n"\n\nmsgid "a"\nmsgstr "\xff"\n',
                   'usr/share/po/empty%d.pot' % idx: b''}
